@@ -193,8 +193,29 @@ def cmd_port(sid):
     return rc
 
 
+def cmd_table():
+    rows = []
+    for sid in sorted(os.listdir(SEEDED)):
+        d = json.load(open(os.path.join(SEEDED, sid, 'meta.json')))
+        summ = (d.get('summary') or '').replace('|', '/').replace('\n', ' ')
+        summ = re.sub(r'^(Change|change|Site|Mechanism)\s*[:(]\s*', '', summ)[:150]
+        det = d.get('detected_by') or {}
+        rules = []
+        for p, reps in sorted(det.items()):
+            rr = sorted(set(re.findall(r'\b(R\d+\.\d+)\b', ' '.join(reps))))
+            rules.append('%s %s' % (p, '/'.join(rr)) if rr else p)
+        fr = (d.get('first_run') or '').replace('|', '/')
+        rows.append('| %s | %s | %s | %s | %s |' % (sid, d['property'], summ, ', '.join(rules) or '**missed**', fr[:160]))
+    print('| seed | property | change (sub-agent\'s words, shortened) | reported by (quick tier, today) | first run |')
+    print('|---|---|---|---|---|')
+    print('\n'.join(rows))
+
+
 if __name__ == '__main__':
     a = sys.argv[1:]
+    if a and a[0] == 'table':
+        cmd_table()
+        sys.exit(0)
     if a and a[0] == 'port':
         sys.exit(cmd_port(a[1]))
     if a and a[0] == 'import':
